@@ -278,6 +278,29 @@ def rules(ck, P):
                 ck.violation("R-REGISTRY", adt + "|tag", "factory has no literal tag name")
             else:
                 tags.setdefault(tn, []).append(adt)
+    # the factories returned by the registry functions all end up in the name maps the lookup reads: PipelineFactory::default loops over each
+    # registry function without adaptor or exit and hands every element to the add function, which inserts it under its own tag name
+    from . import mvt as _mvt
+    df = [x for x in P.bodies if x["q"].endswith("factory::PipelineFactory::default")]
+    if ck.anchor("R-REGISTRY", "PipelineFactory::default", df, 1):
+        for regfn, addfn, mp in (("get_read_operation_factories", "add_read_factory", "read_ops"), ("get_transform_operation_factories", "add_tran_factory", "tran_ops")):
+            lps = [n for n in ir.walk_nodes(df[0]["body"]) if n.get("k") == "for" and ir.contains(n["iter"], lambda y: y.get("k") == "call" and (y.get("q") or "").endswith("::" + regfn))]
+            okl = False
+            if len(lps) == 1:
+                lv = ir.pat_binds(lps[0]["pat"])
+                adapt = [y["name"] for y in ir.walk_nodes(lps[0]["iter"]) if y.get("k") == "mcall" and y.get("name") not in ("into_iter", "iter")]
+                cnt = _mvt.exit_counts(P, {"body": lps[0]["body"]}, lambda y: 1 if (y.get("k") == "mcall" and (ir.callee(y) or "").endswith("PipelineFactory::" + addfn) and y.get("a") and len(lv) == 1 and ir.local_hid(y["a"][0]) == lv[0]["hid"]) else None)
+                esc = [y["k"] for y in ir.walk_nodes(lps[0]["body"]) if y.get("k") in ("break", "continue")]
+                okl = not adapt and cnt == {1} and not esc
+            ab = [x for x in P.bodies if x["q"].endswith("factory::PipelineFactory::" + addfn)]
+            oka = False
+            if ab:
+                fp = [x for p_ in ab[0]["params"] for x in ir.pat_binds(p_) if x["name"] != "self"]
+                ins = [y for y in ir.walk_nodes(ab[0]["body"]) if y.get("k") == "mcall" and y.get("name") == "insert" and ir.place_str(y["recv"]) == "self." + mp and len(y.get("a", ())) == 2]
+                oka = len(ins) == 1 and bool(fp) and ir.local_hid(ins[0]["a"][1]) == fp[0]["hid"] and ir.contains(ins[0]["a"][0], lambda z: z.get("k") == "mcall" and z.get("name") == "get_tag_name" and ir.local_hid(z["recv"]) == fp[0]["hid"]) and \
+                    _mvt.exit_counts(P, ab[0], lambda y: 1 if (y.get("k") == "mcall" and y.get("name") == "insert") else None) == {1}
+            ck.check(okl and oka, "R-REGISTRY", regfn + "|installed", "every factory returned by %s is inserted into self.%s under its own tag name" % (regfn, mp),
+                     "factories of %s are not all installed in self.%s (loop ok=%s, %s ok=%s): their operations are unknown to the parser's lookup" % (regfn, mp, okl, addfn, oka), ir.loc(df[0]))
     dup = {t: a for t, a in tags.items() if len(a) > 1}
     ck.check(not dup and len(tags) >= 7, "R-REGISTRY", "tags-unique", "%d operation tags, all distinct: %s" % (len(tags), sorted(tags)), "duplicate tags %s (a later registration replaces an earlier one in the name map)" % dup)
 
